@@ -18,6 +18,7 @@ import Driver.C14
 import Driver.C17
 import Driver.C18
 import Driver.Sys
+import Driver.Lapi
 open Driver
 
 def machines : List (String × Machine × Machine) :=
@@ -41,7 +42,8 @@ def machines : List (String × Machine × Machine) :=
    ("C14", C14.machine, C14.judge),
    ("C17", C17.machine, C17.judge),
    ("C18", C18.machine, C18.judge),
-   ("SYS", Sys.machine, Sys.judge)]
+   ("SYS", Sys.machine, Sys.judge),
+   ("LAPI", Lapi.machine, Lapi.judge)]
 
 def main (args : List String) : IO UInt32 := do
   match args with
